@@ -24,6 +24,25 @@ fn x_determinism() {
             }
         }
     }
+    // indexed sprites in which the SAME palette index means different things on different layers (transparent index on a
+    // normal layer, opaque on a background layer): any state shared between cels shows up as call-order dependence
+    for &ti in &[0u8, 1] {
+        let mut s = Sprite::new(3, 1, Fmt::Indexed(ti), 2);
+        let mut bg = LayerM::image("bg");
+        bg.flags = 1 | 8;
+        s.layers.push(bg);
+        s.layers.push(LayerM::image("fg"));
+        s.palette = Some(vec![
+            PalEntry { idx: 0, rgba: [255, 0, 0, 255], name: None },
+            PalEntry { idx: 1, rgba: [0, 255, 0, 255], name: None },
+            PalEntry { idx: 2, rgba: [0, 0, 255, 200], name: None },
+        ]);
+        for f in 0..2 {
+            s.frames[f].cels.push(CelM { layer: 0, x: 0, y: 0, opacity: 255, kind: CelKind::Raw { w: 3, h: 1, px: vec![ti, 1 - ti, 2] }, ud: None, zlib: None });
+            s.frames[f].cels.push(CelM { layer: 1, x: 0, y: 0, opacity: 255, kind: CelKind::Raw { w: 3, h: 1, px: vec![2, ti, ti] }, ud: None, zlib: Some(6) });
+        }
+        inputs.push(encode(&s));
+    }
     for (i, bytes) in inputs.iter().enumerate() {
         let (f1, f2) = match (load(bytes), load(bytes)) {
             (Ok(a), Ok(b)) => (a, b),
@@ -35,6 +54,13 @@ fn x_determinism() {
         };
         st.case(bytes, true);
         let base = observe(&f1, true);
+        // the second value is first used in the OPPOSITE order (last frame / top layer first, cels before frames)
+        for fr in (0..f2.num_frames()).rev() {
+            for l in (0..f2.num_layers()).rev() {
+                let _ = f2.cel(fr, l).image();
+            }
+            let _ = f2.frame(fr).image();
+        }
         if let Some(d) = first_diff(&base, &observe(&f2, true)) {
             st.fail(format!("input #{}: two loads of the same bytes differ: {}", i, d), Some(bytes));
         }
